@@ -254,10 +254,38 @@ func prevInfo(f *genFile, k int) (string, int) {
 	return kind, adj
 }
 
+// a byte the scanner rejects put INSIDE definition k, after its (intact) keyword: in the middle of
+// every string literal (read rune by rune by Parser.string, not by Scan) and at one more place after
+// the keyword. The definition is corrupted for sure, its keyword is scanned normally, so no
+// definition of the prefix is still looking ahead: Defs() must be exactly the preceding ones and
+// must not contain the corrupted definition itself.
+func insideCorruptions(g *gen, f *genFile, k int) []corruption {
+	d := f.defs[k]
+	bad := []string{"\x00", "\xff", "\xc3", "\xed\xa0\x80"}
+	var out []corruption
+	for i := 1; i < len(d.toks); i++ {
+		t := &d.toks[i]
+		if t.kind == kStr {
+			at := t.start + 1 + (t.end-t.start-2)/2 // between the quotes (also for "")
+			for _, b := range bad[:2+g.r.Intn(3)] {
+				out = append(out, corruption{op: "illegal-inside", text: splice(f.text, at, at, b), tag: hex.EncodeToString([]byte(b))})
+			}
+		}
+	}
+	last := d.toks[len(d.toks)-1].end
+	// not directly after the keyword: the scan of the keyword itself reads one character ahead
+	if from := d.toks[0].end + 1; last >= from {
+		at := from + g.r.Intn(last-from+1)
+		b := bad[g.r.Intn(len(bad))]
+		out = append(out, corruption{op: "illegal-inside", text: splice(f.text, at, at, b), tag: hex.EncodeToString([]byte(b))})
+	}
+	return out
+}
+
 func corruptions(g *gen, f *genFile, k int) []corruption {
 	d := f.defs[k]
 	if d.kind == "unknown" {
-		return firstByteCorruptions(f, k)
+		return append(firstByteCorruptions(f, k), insideCorruptions(g, f, k)...)
 	}
 	var mand, strs, nums []int
 	for i := 1; i < len(d.toks); i++ {
@@ -311,7 +339,8 @@ func corruptions(g *gen, f *genFile, k int) []corruption {
 	}
 	// the keyword itself replaced by a character that starts no definition
 	out = append(out, corruption{op: "illegal-keyword", text: splice(f.text, d.toks[0].start, d.toks[0].end, "$")})
-	return append(out, firstByteCorruptions(f, k)...)
+	out = append(out, firstByteCorruptions(f, k)...)
+	return append(out, insideCorruptions(g, f, k)...)
 }
 
 // ---- arbitrary bytes (C12 totality / determinism)
